@@ -18,6 +18,8 @@ def mk_engine(P):
     eng.drop_impls = False
     eng.merging = False      # keep buffer structures concrete per path (merged offsets would be ite terms)
     eng.int_mode = True      # lengths and offsets as mathematical integers (exact: dev-profile MIR checks every +,-)
+    eng.native_eq["mkey"] = _key_eq          # two writes name the same metric iff they were given the same key
+    eng.models[r"^<Key as Clone>::clone$"] = lambda eng_, ctx, f, path, args, dty: eng_.load_ptr(ctx, args[0]) if isinstance(args[0], Ptr) else args[0]
     return eng
 
 
@@ -26,48 +28,90 @@ class Hist:
     pass
 
 
+def _key_eq(eng, ctx, a, b):
+    return z3.BoolVal(isinstance(a, Native) and isinstance(b, Native) and a.kind == b.kind == "mkey" and a.data["id"] == b.data["id"])
+
+
 def mk_key(eng, idx, nlabels):
     labels = []
     for j in range(nlabels):
         labels.append(Native("label", (f"k{idx}_{j}", models_bytes.fresh_len(eng, 0, 1 << 20, f"k{idx}l{j}k"), models_bytes.fresh_len(eng, 0, 1 << 20, f"k{idx}l{j}v"))))
-    return Native("mkey", {"name_len": models_bytes.fresh_len(eng, 0, 1 << 20, f"name{idx}"), "labels": labels})
+    return Native("mkey", {"id": idx, "name_len": models_bytes.fresh_len(eng, 0, 1 << 20, f"name{idx}"), "labels": labels})
 
 
-def expected_structure(view, lp, kind, name_prefix, nvals_max):
-    """Python-level structural check of one yielded payload (list of segment tuples). Returns (ok, body segments, nvalues)"""
+def expected_payload(view, lp, has_prefix, oi, op, keys, gl):
+    """Exact check of one yielded payload (list of (label, length) segments) against the message the property prescribes for write
+    operation `oi`: `[prefix.]name(:value)+|type[|@rate][|#global tags,own tags][|T timestamp]\\n`, the values being a run of this
+    operation's values in order. Returns (ok, body segments, index of the first value carried, number of values, name length term)."""
+    kind, ki, nv, with_ts, with_rate = op
     segs = list(view)
     if lp:
         if not segs or not (segs[0][0] == "le32" or segs[0][0].startswith("array")):
-            return False, segs, 0
-        hdr = segs[0]
+            return False, segs, 0, 0, None
         segs = segs[1:]
-    labs = [s[0] for s in segs]
+    labs = [s_[0] for s_ in segs]
     i = 0
-    if name_prefix:
+    if has_prefix:
         if labs[i:i + 2] != ["str:prefix", "byte:."]:
-            return False, segs, 0
+            return False, segs, 0, 0, None
         i += 2
     if i >= len(labs) or labs[i] != "str:name":
-        return False, segs, 0
+        return False, segs, 0, 0, None
+    name_len = segs[i][1]
     i += 1
-    nv = 0
-    while i + 1 < len(labs) and labs[i] == "byte::" and (labs[i + 1].startswith("str:itoa") or labs[i + 1].startswith("str:ryu")):
-        nv += 1
+    scalar = kind in ("counter", "gauge")
+    first, n = None, 0
+    while i + 1 < len(labs) and labs[i] == "byte::":
+        lab = labs[i + 1]
+        if scalar:
+            if lab not in (f"str:itoa(v{oi})", f"str:ryu(v{oi})") or n:
+                return False, segs, 0, 0, None
+            j = 0
+        else:
+            j = None
+            for cand in range(nv):
+                if lab == f"str:ryu(v{oi}_{cand})":
+                    j = cand
+            if j is None or (first is not None and j != first + n):
+                return False, segs, 0, 0, None
+        if first is None:
+            first = j
+        n += 1
         i += 2
-    if nv < 1:
-        return False, segs, nv
-    # |<type>
-    if kind in ("c", "g"):
-        if i >= len(labs) or labs[i] != "str:|" + kind:
-            return False, segs, nv
+    if n < 1:
+        return False, segs, 0, 0, None
+    tchar = {"counter": "c", "gauge": "g", "hist": "h", "dist": "d"}[kind]
+    if labs[i:i + 1] == ["str:|" + tchar]:
         i += 1
-    else:
-        if labs[i:i + 2] != ["byte:|", "byte:?"] and labs[i:i + 2] != ["byte:|", "byte:" + kind]:
-            return False, segs, nv
+    elif labs[i:i + 2] == ["byte:|", "byte:" + tchar] or labs[i:i + 2] == ["byte:|", "byte:?"]:
         i += 2
-    if not labs or labs[-1] != "byte:\\n":
-        return False, segs, nv
-    return True, segs, nv
+    else:
+        return False, segs, 0, 0, None
+    rest = labs[i:]
+    j = 0
+
+    def eat(seq):
+        nonlocal j
+        if rest[j:j + len(seq)] == seq:
+            j += len(seq)
+            return True
+        return False
+    if with_rate and not scalar and not eat(["str:|@", f"str:ryu(rate{oi})"]):
+        return False, segs, 0, 0, None
+    bare = []        # value lengths of tags written bare (`name` without `:value`): allowed only for an empty value
+    all_labels = list(gl.data) + list(keys[ki].data["labels"])
+    for n_, l_ in enumerate(all_labels):
+        if not eat(["str:|#"] if n_ == 0 else ["byte:,"]):
+            return False, segs, 0, 0, None
+        if not eat([f"str:label{l_.data[0]}.k"]):
+            return False, segs, 0, 0, None
+        if not eat(["byte::", f"str:label{l_.data[0]}.v"]):
+            bare.append(l_.data[2])
+    if with_ts and scalar and not eat(["str:|T", f"str:itoa(ts{oi})"]):
+        return False, segs, 0, 0, None
+    if not eat(["byte:\\n"]) or j != len(rest):
+        return False, segs, 0, 0, None
+    return True, segs, first, n, (name_len, bare)
 
 
 def writer_history(e3, name, ops, lp_sym=True):
@@ -129,7 +173,7 @@ def analyse(e3, name, ops, desc):
     done = [l for l in leaves if l.status == "done"]
     panics = [l for l in leaves if l.status == "panic"]
     other = [l for l in leaves if l.status not in ("done", "panic")]
-    bad_obs, too_long, bad_hdr, bad_struct, miscount = [], [], [], [], []
+    bad_obs, too_long, bad_hdr, bad_struct, miscount, wrong_name, bad_order = [], [], [], [], [], [], []
     for l in leaves:
         for lab, e, pay in l.obs:
             if lab in ("truncate_inside_a_segment", "header_patched_over_payload_bytes", "header_patched_off_a_segment_boundary", "payload_range_off_segment_boundaries"):
@@ -144,6 +188,7 @@ def analyse(e3, name, ops, desc):
                     continue
                 pending = {}     # op index -> (kind, values asked)
                 npay_reported = {}
+                next_value = {}
                 for item in l.ret:
                     if item[0] == "write":
                         _, oi, r = item
@@ -157,10 +202,16 @@ def analyse(e3, name, ops, desc):
                             ok = False
                             nvals = 0
                             for oi, kind in pending.items():
-                                k = {"counter": "c", "gauge": "g", "hist": "h", "dist": "d"}[kind]
-                                o2, segs, nv2 = expected_structure(v, lp_c, k, hp_c, 3)
+                                o2, segs, first, nv2, nlen = expected_payload(v, lp_c, hp_c, oi, ops[oi], V["keys"], V["gl"])
                                 if o2:
                                     ok, nvals, body = True, nv2, segs
+                                    nlen, bare = nlen
+                                    wrong_name.append(z3.And(cond, nlen != V["keys"][ops[oi][1]].data["name_len"]))
+                                    for vl in bare:
+                                        bad_struct.append(z3.And(cond, vl != 0))
+                                    if first < next_value.get(oi, 0):      # in order, none twice (a value may be missing: reported as dropped)
+                                        bad_order.append(cond)
+                                    next_value[oi] = first + nv2
                                     break
                             if not ok:
                                 bad_struct.append(cond)
@@ -218,7 +269,9 @@ def analyse(e3, name, ops, desc):
         dict(name=f"{name}:buffer_edits_on_boundaries", desc="a truncation cuts into a payload, or the length header is patched over payload bytes / off a boundary", bounds=bounds, cons=base + [orr(bad_obs)], expect_unsat=True),
         dict(name=f"{name}:payload_within_max_len", desc="a yielded payload body is longer than max_payload_len", bounds=bounds, cons=base + [orr(too_long)], expect_unsat=True),
         dict(name=f"{name}:length_prefix_is_exact", desc="in length-prefixed mode a payload is not preceded by its exact body length", bounds=bounds, cons=base + [orr(bad_hdr)], expect_unsat=True),
-        dict(name=f"{name}:payload_is_one_complete_message", desc="a yielded payload is not `[prefix.]name(:value)+|type<trailer>\\n`", bounds=bounds, cons=base + [orr(bad_struct)], expect_unsat=True),
+        dict(name=f"{name}:payload_is_one_complete_message", desc="a yielded payload is not `[prefix.]name(:value)+|type[|@rate][|#global tags,own tags][|T timestamp]\\n` of one write operation, with that operation's own sample rate, "
+             "timestamp and tags (global labels first) and a run of its values", bounds=bounds, cons=base + [orr(bad_struct)], expect_unsat=True),
+        dict(name=f"{name}:name_and_value_order", desc="a payload carries another metric's name, or an operation's values are not delivered in order, each once", bounds=bounds, cons=base + [orr(wrong_name + bad_order)], expect_unsat=True),
         dict(name=f"{name}:every_point_written_or_dropped", desc="reported payload/drop counts do not match what was yielded", bounds=bounds, cons=base + [orr(miscount)], expect_unsat=True),
     ]
     for sp in specs:
@@ -233,6 +286,8 @@ HIST_QUICK = [
     ("c09_counter_counter_drain", [("counter", 1, 1, True, False), ("gauge", 0, 1, False, False), ("drain",)], "two scalar metrics then a flush"),
     ("c09_drain_counter_drain", [("counter", 0, 1, False, False), ("drain",), ("counter", 1, 1, True, False), ("drain",)], "a second flush cycle on the same writer"),
     ("c09_hist2_drain", [("hist", 1, 2, False, True), ("drain",)], "a histogram with two values (may split across payloads)"),
+    ("c09_hist_hist_same_key", [("hist", 1, 1, False, True), ("hist", 1, 1, False, False), ("drain",)], "the same histogram key written twice with and without a sample rate"),
+    ("c09_dist_drain_dist_same_key", [("dist", 0, 1, False, False), ("drain",), ("dist", 0, 1, False, True), ("drain",)], "the same distribution key in two flush cycles, the second with a sample rate"),
 ]
 HIST_THOROUGH = [
     ("c09_dist3_counter_drain", [("dist", 0, 3, False, False), ("counter", 0, 1, False, False), ("drain",)], "a distribution with three values followed by a counter"),
